@@ -80,4 +80,16 @@ var specs = map[string]propSpec{
 		Rule: "rapid generates a world (1-2 paths x 1-2 files, layout stress, occasional edits), an insertion point at a line start outside every top-level item (or EOF after a trailing newline; offset 0 excluded because the root body's own start does not move) and 1-5 inserted lines (blank, '#', '//', '/* */', multi-byte comment text, CRLF when the file uses it). Precondition checked on the parser: the translated file's top-level AST equals the shifted AST of the original (otherwise the case is counted as excluded). Metamorphic oracle: for every query kind at every cursor (<= 150 boundaries per file) result(original, p) with all ranges of the edited file shifted by the inserted lines/bytes == result(translated, shift(p)) in canonical form (references re-collected in the translated world; errors compared by type). evaluations = comparisons. Non-trivial = insertion before an item and some compared result non-empty; distinct = SHA-1 of the case JSON.",
 		Assumptions: commonAssumptions,
 	},
+	"C14": {
+		Test: "TestC14", Quick: 1500, Thorough: 10000, Shards: 16,
+		QuickTimeout: 10 * time.Minute, ThoroughTimeout: 40 * time.Minute,
+		Rule: "rapid generates a world of 1-3 paths (35% without schema, some unreadable) x 1-3 native files with nested blocks, tuple/object literals with naked / quoted / interpolated / parenthesised keys, layout stress and occasional edits, plus query strings (empty, substrings of written names, misses). Reference model built from the parser's AST by the harness: attributes and blocks in source order, name = attribute name / type + quoted labels, range = item extent, recursion into block bodies, tuple elements and literally string-keyed object items. SymbolsInFile must equal the model node by node (kind, name, range, children) and every child range must lie inside its parent; Decoder.Symbols(q) must equal the concatenation, over readable paths in Paths() order and files in name order, of the top-level model symbols whose name contains q, each tagged with its path. evaluations = files + queries compared. Non-trivial = outline depth >= 2, or an unreadable path present, or a query with both hits and misses; distinct = SHA-1 of the case JSON.",
+		Assumptions: append([]string{"JSON files are covered by C19, not here (the outline of a JSON file depends on the schema)"}, commonAssumptions...),
+	},
+	"C15": {
+		Test: "TestC15", Quick: 2000, Thorough: 15000, Shards: 16,
+		QuickTimeout: 10 * time.Minute, ThoroughTimeout: 40 * time.Minute,
+		Rule: "rapid generates a schema (nesting depth <= 3, required/optional/computed/deprecated attributes, any-attribute bodies, labels, min/max items, dependent bodies keyed by labels / attribute values / defaults / references incl. a second level, extensions) and a configuration rendered from it with ~18% injected violations per opportunity at any depth (unknown attributes and blocks, missing / surplus labels, missing required attributes, too many / too few blocks, deprecated items, dependent-body keys that select nothing). Reference model (written from the statement, over the model schema and the parser's AST; effective schema = static body overlaid with the selected dependent body): expected multiset of (severity, summary, subject range); compared with ValidateFile, and Validate() per file with ValidateFile. Regions the statement does not decide (dynamic blocks, null/unknown key values, ambiguous two-level keys) are excluded from both sides and counted. evaluations = files compared. Non-trivial = at least two kinds of expected diagnostics or a selected dependent body plus a diagnostic; distinct = SHA-1 of the case JSON.",
+		Assumptions: commonAssumptions,
+	},
 }
